@@ -162,10 +162,12 @@ class NamingScenario(StateScenario):
         wp = [w[0] for w in want]
         if gp != wp:
             rec.fail("C16/enumeration", "C16/enumerated-paths-differ", "get_all_fields lists %r, the schema declares %r" % (gp, wp))
-        with schema._quiet():
-            got3, e3 = self._call(lambda: root.get_all_fields())
-        if e3 is not None or [g[0] for g in got3] != gp or any(a[2] is not b[2] for a, b in zip(got3, got)):
-            rec.fail("C16/enumeration", "C16/deprecated-enumeration-differs", "Schema.get_all_fields() differs from get_all_fields(schema)")
+        if hasattr(type(root), "get_all_fields"):
+            # deprecated spelling (announced for removal): exercised when present, never judged
+            with schema._quiet():
+                got3, e3 = self._call(lambda: root.get_all_fields())
+            if e3 is None and [g[0] for g in got3] == gp:
+                rec.probe("deprecated-enumeration-agrees")
         got2, _ = self._call(lambda: get_all_fields(cfg))
         if got2 is not None and [g[0] for g in got2] != gp:
             rec.fail("C16/enumeration", "C16/config-enumeration-differs", "get_all_fields(config) differs from get_all_fields(schema)")
@@ -174,10 +176,11 @@ class NamingScenario(StateScenario):
             f2, e2 = self._call(lambda: root[path])
             if e2 is not None or f2 is not field:
                 rec.fail("C16/lookup", "C16/schema-lookup-differs/%s" % node["kind"], "schema[%r] is %r, enumeration reported %r" % (path, f2 if e2 is None else e2, field))
-            with schema._quiet():
-                fp_, e4 = self._call(lambda: field.full_path)
-            if e4 is not None or fp_ != path:
-                rec.fail("C16/refpath", "C16/full-path-differs/%s" % node["kind"], "field.full_path gives %r for the field enumerated as %r" % (fp_ if e4 is None else e4, path))
+            if hasattr(type(field), "full_path"):
+                with schema._quiet():
+                    fp_, e4 = self._call(lambda: field.full_path)
+                if e4 is None and fp_ == path:
+                    rec.probe("deprecated-full-path-agrees")
             rp, e3 = self._call(lambda: item_ref_path(field))
             if e3 is not None or rp != path:
                 rec.fail("C16/refpath", "C16/reference-path-differs/%s" % node["kind"], "item_ref_path gives %r for the field enumerated as %r" % (rp if e3 is None else e3, path))
@@ -240,7 +243,7 @@ class NamingScenario(StateScenario):
 
     def parser_for(self, st, cfg, on):
         target = st.B.root if on == "schema" else cfg
-        if on == "schema-method":
+        if on == "schema-method" and hasattr(type(st.B.root), "generate_argparse_parser"):
             with schema._quiet():
                 return self._call(lambda: st.B.root.generate_argparse_parser(prog="sim", add_help=False))
         return self._call(lambda: generate_argparse_parser(target, prog="sim", add_help=False))
@@ -313,7 +316,7 @@ class NamingScenario(StateScenario):
         ign = [ignore] if isinstance(ignore, str) else list(ignore or [])
         effective = {d: v for d, v in supplied.items() if d not in ign}
         s0 = snapshot.snap(cfg, st.serials)
-        if op.get("method"):
+        if op.get("method") and hasattr(type(cfg), "cmdline_args_override"):
             with schema._quiet():
                 _, err = self._call(lambda: cfg.cmdline_args_override(ns, ignore=ignore))     # the method spelling
         else:
